@@ -68,9 +68,15 @@ class Modules:
         return self.cache[key]
 
 
-def run_case(L, mods, c, n, modkind, rng, bits=60, fill=0xC3, off=0):
+def role_data(seed, role, limb, n, bits):
+    g = np.random.default_rng([seed & 0x7FFFFFFF, {"a": 1, "b": 2, "r": 3}[role], limb, n])
+    return g.integers(-(1 << bits), 1 << bits, n, dtype=np.int64)
+
+
+def run_case(L, mods, c, n, modkind, rng, bits=60, fill=0xC3, off=0, data_seed=None, p=None, want_result=False):
     """Executes one LimbLoops case. Returns (None, description-of-case) when everything matches the model,
-    else (reason, description)."""
+    else (reason, description). Limb contents are a function of (data_seed, operand role, limb) so that an aliased
+    call and its de-aliased twin see the same operand values; with want_result the output limbs are appended."""
     op = c["op"]
     rs, as_, bs = c["rs"], c["as"], c["bs"]
     sl = {"r": stride_of(c["rsl"], n, rng), "a": stride_of(c["asl"], n, rng), "b": stride_of(c["bsl"], n, rng)}
@@ -80,22 +86,25 @@ def run_case(L, mods, c, n, modkind, rng, bits=60, fill=0xC3, off=0):
         sl["b"] = sl["r"]
     if c["alias"] == "ab":
         sl["b"] = sl["a"]
+    if data_seed is None:
+        data_seed = rng.randrange(1 << 30)
     # buffers 1,2,3 with the extent each operand needs
     need = {1: 0, 2: 0, 3: 0}
     for (buf, size, s) in ((c["rb"], rs, sl["r"]), (c["ab"], as_, sl["a"]), (c["bb"], bs, sl["b"])):
         if size:
             need[buf] = max(need[buf], (size - 1) * s + n)
     bufs = {b: Buf(8 * need[b], off=off, fill=fill) for b in need}
-    # initial payloads: every limb an operand can see in its buffer gets data (tokens of the model)
+    # initial payloads: every limb an operand can see in its buffer gets data (tokens of the model);
+    # a buffer shared by several operands carries the data of the first of a, b, res that uses it
     data = {}
-    for (buf, size, s) in ((c["ab"], as_, sl["a"]), (c["bb"], bs, sl["b"]), (c["rb"], rs, sl["r"])):
+    for (role, buf, size, s) in (("a", c["ab"], as_, sl["a"]), ("b", c["bb"], bs, sl["b"]), ("r", c["rb"], rs, sl["r"])):
         for limb in range(size):
             if (buf, limb) not in data:
-                v = np.array([rng.randrange(-(1 << bits), 1 << bits) for _ in range(n)], dtype=np.int64) \
-                    if n <= 64 else np.random.default_rng(rng.randrange(1 << 30)).integers(-(1 << bits), 1 << bits, n)
+                v = role_data(data_seed, role, limb, n, bits)
                 data[(buf, limb)] = v
                 bufs[buf].i64[limb * s:limb * s + n] = v
-    p = rng.choice([0, 1, -1, n, n + 1, 3 * n - 1, rng.randrange(-(1 << 40), 1 << 40)])
+    if p is None:
+        p = rng.choice([0, 1, -1, n, n + 1, 3 * n - 1, rng.randrange(-(1 << 40), 1 << 40)])
     if "automorphism" in op:
         p |= 1
     expected = {b: bufs[b].snapshot() for b in bufs}
@@ -112,14 +121,18 @@ def run_case(L, mods, c, n, modkind, rng, bits=60, fill=0xC3, off=0):
         op, modkind, n, rs, as_, bs, sl["r"], sl["a"], sl["b"], c["alias"], p)
     call_op(L, mods.get(n, modkind), op, p, bufs[c["rb"]], rs, sl["r"], bufs[c["ab"]], as_, sl["a"],
             bufs[c["bb"]], bs, sl["b"])
+    result = [bufs[c["rb"]].i64[i * sl["r"]:i * sl["r"] + n].copy() for i in range(rs)] if want_result else None
+
+    def ret(why):
+        return (why, desc, result) if want_result else (why, desc)
     for b in bufs:
         if not bufs[b].canaries_ok():
-            return "write outside buffer %d (canary)" % b, desc
+            return ret("write outside buffer %d (canary)" % b)
     for b in bufs:
         if not np.array_equal(bufs[b].u8, expected[b]):
             got, exp = bufs[b].i64, eview[b]
             k = int(np.argmax(got != exp))
             where = "output limb" if (b == c["rb"] and k // sl["r"] < rs and k % sl["r"] < n) else \
                 "a cell that must not change (padding, limb past res_size, or source)"
-            return "buffer %d cell %d (%s): got %d expected %d" % (b, k, where, int(got[k]), int(exp[k])), desc
-    return None, desc
+            return ret("buffer %d cell %d (%s): got %d expected %d" % (b, k, where, int(got[k]), int(exp[k])))
+    return ret(None)
